@@ -2,6 +2,7 @@ package PKG
 
 import (
 	"context"
+	"encoding/base64"
 	"errors"
 	"io"
 	"strings"
@@ -15,6 +16,7 @@ func init() {
 	vHarnesses["VerifH_C05_unary"] = VerifH_C05_unary
 	vHarnesses["VerifH_C05_stream"] = VerifH_C05_stream
 	vHarnesses["VerifH_C05_bulk"] = VerifH_C05_bulk
+	vHarnesses["VerifH_C05_basic"] = VerifH_C05_basic
 }
 
 // ---- stubs at the Authenticate / Access interfaces ----
@@ -293,4 +295,65 @@ func VerifH_C05_bulk() {
 		}
 	}
 	vAssert("C05.bulk.denied-not-delivered", k == len(delivered))
+}
+
+// ---- the real BasicAuth (the Authenticate implementation shipped with grip) ----
+
+// c05Decoded: what the base64 payload of the Authorization header decodes to.
+// Symbolically base64.DecodeString is redirected to c05DecodeString (the codec is
+// standard library code and not the subject); natively the header carries the
+// real encoding.
+var c05Decoded string
+var c05DecodeFails bool
+
+func c05DecodeString(enc *base64.Encoding, s string) ([]byte, error) {
+	if c05DecodeFails || s != "TOKEN" {
+		return nil, errors.New("illegal base64 data")
+	}
+	return []byte(c05Decoded), nil
+}
+
+// VerifH_C05_basic: BasicAuth accepts exactly the configured (user, password)
+// pairs, whatever the header carries.
+func VerifH_C05_basic() {
+	ba := BasicAuth{{User: "al", Password: "pw"}, {User: "bo", Password: "x"}}
+	user := vNondetString("user", 2)
+	pw := vNondetString("pw", 2)
+	for i := 0; i < len(user); i++ {
+		vAssume(user[i] != ':')
+	}
+	payload := user + ":" + pw
+	shape := vChoice("header", 5)
+	md := MetaData{}
+	wantOK := false
+	switch shape {
+	case 0: // well-formed
+		md["authorization"] = []string{c05Header(payload, false)}
+		wantOK = (user == "al" && pw == "pw") || (user == "bo" && pw == "x")
+	case 1: // capitalised key, as grpc-gateway forwards it
+		md["Authorization"] = []string{c05Header(payload, false)}
+		wantOK = (user == "al" && pw == "pw") || (user == "bo" && pw == "x")
+	case 2: // no header at all
+	case 3: // not a Basic header
+		md["authorization"] = []string{"Bearer " + payload}
+	default: // undecodable payload
+		md["authorization"] = []string{c05Header(payload, true)}
+	}
+	got, err := ba.Validate(md)
+	vReach("c05.basic.validated")
+	vAssert("C05.basic.accept-iff-configured-pair", (err == nil) == wantOK)
+	if err == nil {
+		vAssert("C05.basic.returns-the-user", got == user)
+	}
+}
+
+func c05Header(payload string, broken bool) string {
+	if vSymbolic() {
+		c05Decoded, c05DecodeFails = payload, broken
+		return "Basic TOKEN"
+	}
+	if broken {
+		return "Basic !!!not-base64!!!"
+	}
+	return "Basic " + base64.StdEncoding.EncodeToString([]byte(payload))
 }
